@@ -497,6 +497,7 @@ where
                 match how {
                     0 => consume(r.configure(|cfg, ctx: &Val| cfg.exactly(ctx.ctx_num())), cons),
                     1 => consume(r.configure(|cfg, ctx: &Val| cfg.at_least(ctx.ctx_num())), cons),
+                    3 => consume(r.try_configure(|cfg, ctx: &Val, span| if ctx.ctx_num() <= 2 { Ok(cfg.exactly(ctx.ctx_num())) } else { Err(E::user(span, "tc")) }), cons),
                     _ => consume(r.configure(|cfg, ctx: &Val| cfg.at_most(ctx.ctx_num())), cons),
                 }
             }
@@ -541,6 +542,7 @@ where
                 Ok(match how {
                     0 => r.configure(|cfg, ctx: &Val| cfg.exactly(ctx.ctx_num())).map(|()| Val::U).bxd(),
                     1 => r.configure(|cfg, ctx: &Val| cfg.at_least(ctx.ctx_num())).map(|()| Val::U).bxd(),
+                    3 => r.try_configure(|cfg, ctx: &Val, span| if ctx.ctx_num() <= 2 { Ok(cfg.exactly(ctx.ctx_num())) } else { Err(E::user(span, "tc")) }).map(|()| Val::U).bxd(),
                     _ => r.configure(|cfg, ctx: &Val| cfg.at_most(ctx.ctx_num())).map(|()| Val::U).bxd(),
                 })
             }
